@@ -2,5 +2,5 @@
 # re-run every claimed check on the current tree (refreshes evidence/*.json); prints one line per check
 cd "$(dirname "$0")/.."
 for c in $(jq -r '.checks[].property_id // .checks[].id' MANIFEST.json 2>/dev/null | sort -u); do
-  ./check $c 2>&1 | tail -1 | cut -c1-160
+  ./check $c ${TIER:+--tier $TIER} 2>&1 | tail -1 | cut -c1-160
 done
